@@ -467,6 +467,31 @@ def specsList : Specs → List (Option String × Expr)
   | .for_ v e rest => (some v, e) :: specsList rest
   | .if_ c rest => (none, c) :: specsList rest
 
+/-- `check_call_thunk_args`: already-built positional argument thunks bound to a function's parameters
+    (deferred callback applications of `std.map` / `std.makeArray`): arity errors, then defaults. -/
+def bindThunkArgs (fn : Func) (pos : List TId) : M (List TId) := do
+  let slots ← match Bind.bindPlan (fn.params.map (fun p => (p.1, hasDefault p.2))) pos.length [] with
+    | .error e => throw (bindErr e)
+    | .ok slots => pure slots
+  let needEnv := slots.any (· == .dflt)
+  let argsEnv ← if needEnv then allocEnv { parent := none, vars := [], obj := none } else pure 0
+  let mut argThunks : List TId := []
+  for (slot, (_, pd)) in slots.zip fn.params do
+    match slot with
+    | .pos i =>
+      match pos[i]? with
+      | some t => argThunks := argThunks ++ [t]
+      | none => throw (.internal "binding plan refers to a missing positional argument")
+    | .named _ => throw (.internal "binding plan refers to a named argument")
+    | .dflt =>
+      match pd with
+      | .some de => argThunks := argThunks ++ [← newThunk de argsEnv]
+      | .none => throw (.internal "default slot without default expression")
+  if needEnv then
+    setEnv argsEnv { parent := some fn.env, vars := (fn.params.map Prod.fst).zip argThunks,
+                     obj := (← getEnv fn.env).obj }
+  pure argThunks
+
 def boolOf (b : Bool) : Value := .bool b
 
 section
@@ -663,7 +688,8 @@ def step : Task → M Value
           | none => rec (.eval e env false d)
         | .call f args => do
           let fn ← getFunc f
-          let inner ← newEnv (some fn.env) ((fn.params.map Prod.fst).zip args)
+          let argThunks ← bindThunkArgs fn args
+          let inner ← newEnv (some fn.env) ((fn.params.map Prod.fst).zip argThunks)
           rec (.eval fn.body inner true d)
       setThunk t (.done v)
       pure v
@@ -1089,6 +1115,39 @@ def step : Task → M Value
         let mut out : List TId := []
         for n in names do
           out := out ++ [← allocThunk (.done (.str n))]
+        pure (.arr out)
+      | .map, [t0, t1] => do
+        -- `do_std_map`: one deferred application per element; nothing is called yet
+        let fv ← rec (.force t0 d1)
+        let av ← rec (.force t1 d1)
+        let .func f := fv | throw (.rt "InvalidStdFuncArgType" s!"map/0/{typeName fv}")
+        match av with
+        | .arr items =>
+          let mut out : List TId := []
+          for it in items do
+            out := out ++ [← allocThunk (.pending (.call f [it]))]
+          pure (.arr out)
+        | .str s =>
+          let mut out : List TId := []
+          for c in s.toList do
+            let a ← allocThunk (.done (.str (String.singleton c)))
+            out := out ++ [← allocThunk (.pending (.call f [a]))]
+          pure (.arr out)
+        | v => throw (.rt "InvalidStdFuncArgType" s!"map/1/{typeName v}")
+      | .makeArray, [t0, t1] => do
+        let sv ← rec (.force t0 d1)
+        let fv ← rec (.force t1 d1)
+        let .num n := sv | throw (.rt "InvalidStdFuncArgType" s!"makeArray/0/{typeName sv}")
+        let .func f := fv | throw (.rt "InvalidStdFuncArgType" s!"makeArray/1/{typeName fv}")
+        if !(n.isFinite && n.floor == n && n ≥ 0.0 && n ≤ 2147483647.0) then
+          throw (.rt "Other" "invalid size value")
+        if (← getFunc f).params.length != 1 then
+          throw (.rt "Other" "function must have exactly 1 parameter")
+        if n > 4096.0 then throw (.unsupported "large makeArray")
+        let mut out : List TId := []
+        for i in List.range n.toUInt64.toNat do
+          let a ← allocThunk (.done (.num (Float.ofNat i)))
+          out := out ++ [← allocThunk (.pending (.call f [a]))]
         pure (.arr out)
       | _, _ => throw (.internal "builtin arity")
 
